@@ -1028,6 +1028,15 @@ class Interp:
             return self.world.dyn_equal(self, a, b, node)
         if isinstance(a, VAtom) or isinstance(b, VAtom):
             other = b if isinstance(a, VAtom) else a
+            from .codec import VOpt as _VOpt
+            if not isinstance(other, (VInt, VBool, VStr, VTuple, VList, VAtom, VDyn, VOpaque, _VOpt,
+                                      VConst, VFloat)):
+                at = a if isinstance(a, VAtom) else b
+                try:
+                    if sym.atom_obj(at) is None:
+                        return z3.BoolVal(False)    # None equals no object
+                except KeyError:
+                    pass
             if isinstance(other, (VInt, VBool, VStr, VTuple, VList)):
                 at = a if isinstance(a, VAtom) else b
                 try:
@@ -1916,12 +1925,17 @@ class Interp:
             (e,) = node.args
             snap = self.iter_snaps[-1]
             saved_old = st.old
+            saved_env0 = st.env
             st.old = snap
+            # locals too have their value of the start of the iteration (names bound only now,
+            # e.g. quantified variables of the clause, stay visible)
+            st.env = {**st.env, **snap.env}
             try:
                 return self.spec_form(ast.Call(func=ast.Name(id="old", ctx=ast.Load()), args=[e],
                                                keywords=[]))
             finally:
                 st.old = saved_old
+                st.env = saved_env0
         if name == "old":
             (e,) = node.args
             if st.old is None:
@@ -2372,12 +2386,17 @@ class Interp:
             if lc and lc.get("variant"):
                 v0 = self.as_int(self.spec_value(lc["variant"], ref), node)
             fell_through = True
+            self.iter_snaps.append(self.st.snapshot())
             try:
                 self.exec_block(node.body)
             except _Break:
+                self.iter_snaps.pop()
                 return
             except _Continue:
                 fell_through = False
+            except BaseException:
+                self.iter_snaps.pop()
+                raise
             if fell_through and lc and lc.get("step_post"):
                 # end-of-iteration assertions (may mention locals of the iteration just executed)
                 for clause in lc["step_post"]:
@@ -2388,6 +2407,7 @@ class Interp:
                             continue
                         raise
                     self.oblige("STEP", f"loop {ordinal}: {clause}", g, self.cur_line)
+            self.iter_snaps.pop()
             self.check_invariants(lc, "INV-PRES", ordinal, ref)
             if v0 is not None:
                 v1 = self.as_int(self.spec_value(lc["variant"], ref), node)
